@@ -31,7 +31,7 @@ def describe(tier):
         'rule': 'state = history; canon = (model list, closed flag, set of chunk ids whose file object is cached, directory listing). '
                 'BFS to fixpoint for every configuration (array_len, item_size, items_per_file) with len in %s, item_size in %s, '
                 'items_per_file 1..len+2: every event of the alphabet is applied to every reachable canonical state. Alphabet: a[i] and '
-                'a[i]=v and del a[i] for every i in [-len-1, len]; v in {b"", 1 byte, item_size bytes, item_size+1 bytes, bytearray, str, int, None}; '
+                'a[i]=v and del a[i] for every i in [-len-1, len]; v in {b"", 1 byte, item_size bytes, item_size+1 bytes (with and without a leading zero byte), bytearray, str, int, None}; '
                 'slice read / delete / write for start, stop in {None,-len-1,-len,-1,0,1,len-1,len,len+1}, step in {None,1,2,-1,-2} (quick, len 3: {None,2,-1} and at most two chunk files); slice '
                 'writes with value lists shorter / equal / longer than the slice, a bad (oversized or non-bytes) element at EVERY position j '
                 '(including just beyond the slice), a non-iterable and a bytes object as the value list; clear, iteration, membership, len, '
@@ -75,7 +75,7 @@ class ArraySystem:
         self.X = b'\x00' * (size - 1) + b'\x07'
         self.Y = b'\xa5' * size
         self.vals = {
-            'empty': b'', 'one': b'\x07', 'full': self.Y, 'over': b'\x01' * (size + 1),
+            'empty': b'', 'one': b'\x07', 'full': self.Y, 'over': b'\x01' * (size + 1), 'overz': b'\x00' + self.Y,
             'bytearray': bytearray(self.Y), 'str': 'a' * size, 'int': 7, 'none': None, 'zero': self.Z,
         }
         self.allowed = {'a_meta'} | {'a_%d' % k for k in range(-(-n // per))}
@@ -92,7 +92,7 @@ class ArraySystem:
         n = self.n
         evs = []
         if reduced:
-            evs += [('get', -1), ('get', 0), ('get', n - 1), ('get', n), ('set', 0, 'one'), ('set', -1, 'full'), ('set', n - 1, 'over'),
+            evs += [('get', -1), ('get', 0), ('get', n - 1), ('get', n), ('set', 0, 'one'), ('set', -1, 'full'), ('set', n - 1, 'over'), ('set', 0, 'overz'),
                     ('set', -n, 'str'), ('sget', None, None, None), ('sget', None, None, -1), ('sset', None, None, None, 'equal'),
                     ('sset', None, None, 2, 'bad-over@1'), ('sset', 1, None, None, 'short'), ('sset', None, None, -1, 'bad-type@0'),
                     ('sdel', None, None, None), ('sdel', -2, None, None), ('del', -1), ('del', 0), ('clear',), ('iter',), ('in', 'X'),
@@ -102,7 +102,7 @@ class ArraySystem:
         for i in idxs:
             evs.append(('get', i))
         for i in idxs:
-            for vk in ('empty', 'one', 'full', 'over', 'bytearray', 'str', 'int', 'none'):
+            for vk in ('empty', 'one', 'full', 'over', 'overz', 'bytearray', 'str', 'int', 'none'):
                 evs.append(('set', i, vk))
         for i in idxs:
             evs.append(('del', i))
@@ -118,6 +118,8 @@ class ArraySystem:
             for j in range(k):
                 variants.append('bad-over@%d' % j)
                 variants.append('bad-type@%d' % j)
+            if k:
+                variants.append('bad-overz@%d' % (k - 1))      # oversized by a LEADING ZERO byte: still oversized
             for v in variants:
                 evs.append(('sset', start, stop, step, v))
         evs += [('clear',), ('iter',), ('in', 'Z'), ('in', 'X'), ('in', 'Y'), ('in', 'Q'), ('len',), ('sync',),
@@ -140,7 +142,7 @@ class ArraySystem:
         kind, j = variant.split('@')
         j = int(j)
         vals = [self.Y if (i % 2) else b'\x07' for i in range(k)]
-        vals[j] = b'\x01' * (self.size + 1) if kind == 'bad-over' else 'a' * self.size
+        vals[j] = b'\x01' * (self.size + 1) if kind == 'bad-over' else (b'\x00' + self.Y) if kind == 'bad-overz' else 'a' * self.size
         return vals
 
     # -- life cycle
